@@ -9,7 +9,7 @@ from xh.rt import notrace, pick, reclimit
 from xh import langs, mb
 
 PROP = 'C03'
-LV = ['P', 'A', 'G1', 'G2']
+LV = ['P', 'Am', 'G1', 'G2']
 HOPS = ['lookup P', 'lookup A', 'lookup G1', 'lookup G2', 'lang_graph.regenerate_graph()', 'AttackGraph(lang_graph, model)']
 
 
